@@ -113,6 +113,8 @@ impl WalHandle {
                             "Entry appended to WAL"
                         );
 
+                        #[cfg(sneldb_verif)]
+                        crate::verif::step("wal.appended", &format!("\"shard\":{shard_id},\"log\":{},\"entries\":{}", writer.current_log_id, writer.entries_written));
                         let capacity = CONFIG.engine.fill_factor * CONFIG.engine.event_per_zone;
                         if writer.entries_written >= capacity as u64 {
                             if let Err(err) = writer.rotate_log_file() {
@@ -122,6 +124,8 @@ impl WalHandle {
                                     "WAL rotation failed"
                                 );
                             } else {
+                                #[cfg(sneldb_verif)]
+                                crate::verif::step("wal.rotated", &format!("\"shard\":{shard_id},\"log\":{}", writer.current_log_id));
                                 info!(
                                     target: "wal_handle::spawn_wal_thread",
                                     shard_id, new_log_id = writer.current_log_id,
